@@ -8,6 +8,11 @@ package recovery
 
 // A missing or permission-denied file is never worth a retry, however the os error is wrapped.
 //@ pure func noTypedNil(e error) bool = istype(e, *errors.AppError) ==> astype(e, *errors.AppError) != nil
+// The recovery object uses the retry configuration it was given, untouched ("waits never
+// exceed the configured maximum" is about the caller's configuration).
+//@ func NewDatabaseRecovery
+//@   ensures[C15.config-kept] result != nil && result.retryConfig.MaxAttempts == config.MaxAttempts && result.retryConfig.BaseDelay == config.BaseDelay && result.retryConfig.MaxDelay == config.MaxDelay && result.retryConfig.BackoffFactor == config.BackoffFactor
+
 //@ func (*DatabaseRecovery).shouldRetry
 //@   requires noTypedNil(err)
 //@   ensures[C15.no-retry-missing] errorsIs(err, fs.ErrNotExist) ==> !result
